@@ -30,6 +30,7 @@ class RepoSnapshot:
     def __init__(self, repo_dir=REPO_DIR):
         self.repo_dir = repo_dir
         self.codes = {}
+        self.codes_opt = {}         # the same sources as `python -OO` compiles them (asserts and docstrings gone)
         self.paths = {}
         self.sources = {}
         for fn in sorted(os.listdir(repo_dir)):
@@ -41,7 +42,8 @@ class RepoSnapshot:
                 src = f.read()
             self.sources[name] = src
             self.paths[name] = path
-            self.codes[name] = compile(src, path, "exec", dont_inherit=True)
+            self.codes[name] = compile(src, path, "exec", dont_inherit=True, optimize=0)
+            self.codes_opt[name] = compile(src, path, "exec", dont_inherit=True, optimize=2)
 
     def all_code_objects(self):
         out = []
@@ -52,7 +54,7 @@ class RepoSnapshot:
                 if isinstance(k, types.CodeType):
                     rec(k)
 
-        for c in self.codes.values():
+        for c in list(self.codes.values()) + list(self.codes_opt.values()):
             rec(c)
         return out
 
@@ -84,12 +86,13 @@ class _Finder(importlib.abc.MetaPathFinder, importlib.abc.Loader):
         # file lands on the simulated disk, not in the real repository.  Tracebacks and the
         # step clock still see the real source path (co_filename).
         module.__file__ = os.path.join(SCRIPT_DIR or os.path.dirname(self.snap.paths[name]), name + ".py")
-        exec(self.snap.codes[name], module.__dict__)
+        exec((self.snap.codes_opt if OPTIMIZE else self.snap.codes)[name], module.__dict__)
 
 
 _SNAP = None
 _FINDER = None
 SCRIPT_DIR = None       # set by the world to its scratch root
+OPTIMIZE = 0            # 2: the simulated processes run as `python -OO`
 
 
 def install(snap):
@@ -212,6 +215,9 @@ class RefServer:
 
     def call(self, kind, payload, key=None):
         self.calls += 1
+        payload = dict(payload, _optimize=OPTIMIZE)
+        if key is not None:
+            key = (key, OPTIMIZE)
         if key is not None and key in self.cache:
             self.hits += 1
             return self.cache[key]
